@@ -250,7 +250,7 @@ func compileUint64(typ *runtime.Type, structName, fieldName string) (Decoder, er
 }
 
 func compileFloat32(structName, fieldName string) (Decoder, error) {
-	return newFloatDecoder(structName, fieldName, func(p unsafe.Pointer, v float64) {
+	return newFloat32Decoder(structName, fieldName, func(p unsafe.Pointer, v float64) {
 		*(*float32)(p) = float32(v)
 	}), nil
 }
